@@ -24,7 +24,7 @@ NoObj == [cls |-> "none"]
 Empty == <<>>                    \* empty function (dict contents are functions key -> value token)
 
 (* ---------------- descriptor kinds and their token catalogues ---------------- *)
-SkyExtras == {"sAobs"}        \* the position sA with another observation time: a different value (extra frame attribute), not an error
+SkyExtras == {"sAobs", "sAnear", "sAfar"}    \* ... and the direction of sA at two different distances        \* the position sA with another observation time: a different value (extra frame attribute), not an error
 ValidTok(kind) ==
   CASE kind = "pos" -> {"f1_5", "i3", "npf2_5", "f4", "f4u"}                 \* f4u, a30u, q2degu: the next double after f4, a30, q2deg
     [] kind = "posn" -> {"i3", "f4", "i5"}
@@ -32,12 +32,12 @@ ValidTok(kind) ==
     [] kind = "pix1d" -> {"parr3", "parr4"}
     [] kind = "sky" -> {"sA", "sB"} \cup (ExtraPix \cap SkyExtras)
     [] kind = "sky1d" -> {"sarr3", "sarr4"}
-    [] kind = "ang" -> {"a0", "a30", "arad", "aAngle", "aneg", "a30am", "a30u"}
+    [] kind = "ang" -> {"a0", "a30", "arad", "aAngle", "aneg", "a30am", "a30u", "a390"}        \* a390: a full turn more is another value
     [] kind = "posang" -> {"q1as", "q3am", "q2deg", "q180as", "q2degu"}
     [] kind = "regpix" -> {"regP1", "regP2"}
     [] kind = "regsky" -> {"regS1", "regS2"}
     [] kind = "text" -> {"tHello", "tEmpty", "tPadded"}          \* tPadded: blanks and a tab around the label are part of it
-    [] kind = "oper" -> {"op_and", "op_or"}
+    [] kind = "oper" -> {"op_and", "op_or", "op_lamA", "op_lamB"}       \* two different callables with the same __name__
 InvalidTok(kind) ==
   CASE kind = "pos" -> {"zero", "neg", "nan", "inf", "str", "none", "list", "arr0d", "arr1d", "arr1", "list1", "a30", "qpix"}
     [] kind = "posn" -> {"zero", "neg", "nan", "str", "none", "arr1d", "narr1", "a30", "i2", "f3_5"}      \* a count: an integer, at least 3
